@@ -630,8 +630,8 @@ fn create_users(node: &Node, admin_session: &str) -> Result<Vec<User>, String> {
 
 pub fn build_env(ctx: &Ctx, paths: Vec<String>, templates: &[String]) -> Result<Env, String> {
     let work = work_dir(ctx);
-    let cfg_a = NodeCfg { api_login_ttl_s: 7200, console_login_ttl_s: 7200, cluster_token: "rnv-c17".into(), leaderless: false };
-    let cfg_b = NodeCfg { api_login_ttl_s: B_TTL_S, console_login_ttl_s: B_TTL_S, cluster_token: "rnv-c17".into(), leaderless: false };
+    let cfg_a = NodeCfg { api_login_ttl_s: 7200, console_login_ttl_s: 7200, cluster_token: "rnv-c17".into(), leaderless: false, snapshot_log_size: None };
+    let cfg_b = NodeCfg { api_login_ttl_s: B_TTL_S, console_login_ttl_s: B_TTL_S, cluster_token: "rnv-c17".into(), leaderless: false, snapshot_log_size: None };
     let mut nodes = Node::start_many(&work, &[("node-a", &cfg_a), ("node-b", &cfg_b)])?;
     let b = nodes.pop().ok_or("node-b missing")?;
     let a = nodes.pop().ok_or("node-a missing")?;
@@ -733,7 +733,7 @@ pub fn run_list(env: &Arc<Env>, stats: &Arc<Stats>, cases: Vec<Case>, threads: u
 fn fin() -> Finish {
     Finish {
         level: "fault_enumeration",
-        rule: "(a) every instantiated console route x 7 methods x every role vector of length <= 2 over 16 role strings (+ length 3 over {0,1,2,7}) through UserRole::match_url_by_roles - complete; (b) every instantiated console route x 7 methods x {no / empty / garbage / never issued / OpenAPI / expired session, valid session of 9 users covering every role, role pairs, duplicates, unknown and named role strings} x carrier {cookie, Token header, both} in canonical spelling - complete - plus random path spellings. Non-trivial = the router path is a registered console route (b) / the (route, method) is granted to some role vector (a).".to_string(),
+        rule: "(a) every instantiated console route x 7 methods x every role vector of length <= 2 over 16 role strings (+ length 3 over {0,1,2,7}) through UserRole::match_url_by_roles - complete; (b) every instantiated console route x 7 methods x {no / empty / garbage / never issued / OpenAPI / expired session, valid session of 9 users covering every role, role pairs, duplicates, unknown and named role strings} x carrier {cookie, Token header, both} in canonical spelling - complete - plus random path spellings; (d) logout tier (label logout_tier): both logout routes x cookie state x Token header state over {absent, empty, garbage, logged out before, valid} - complete: a logout answered with success ends at least one of the sessions that were valid in the request, a logout without a valid session is refused, a bystander session stays valid; (c) restart tier (label restart_tier): generated schedules on a node with a 5 s session TTL and snapshot threshold 10 - console logins, write bursts (snapshots built at generated session ages), kill -9, generated down time, restart (optionally twice): every session older than TTL + 1.5 s must be refused over cookie and Token header, a fresh login must be served. Non-trivial = the router path is a registered console route (b) / the (route, method) is granted to some role vector (a).".to_string(),
         assumptions: vec![
             "API call = path (as the router sees it) under /rnacos/api/; pages and static assets are not judged in (b)".to_string(),
             "session exemptions exactly: v1 login/login, login/captcha; v2 login/login, login/captcha, login/config, login/oauth2/login".to_string(),
@@ -749,6 +749,154 @@ fn fin() -> Finish {
 
 pub fn work_dir_path(ctx: &Ctx) -> std::path::PathBuf {
     std::path::Path::new(VERIF_ROOT).join("work").join(format!("{}-{}-{}", ctx.id, ctx.tier.name(), std::process::id()))
+}
+
+// ------------------------------------------------------------------------------------------
+// logged-out sessions: a session state of its own ("no valid session" after a successful logout)
+
+#[derive(Debug, Clone, Copy, Serialize, Deserialize, PartialEq, Hash)]
+pub enum LoTok {
+    Absent,
+    Empty,
+    Garbage,
+    /// a session that was valid and has been logged out before
+    LoggedOut,
+    Valid,
+}
+
+#[derive(Debug, Clone, Serialize, Deserialize, Hash)]
+pub struct LogoutCase {
+    pub v2: bool,
+    pub cookie: LoTok,
+    pub header: LoTok,
+}
+
+const LO_ALL: [LoTok; 5] = [LoTok::Absent, LoTok::Empty, LoTok::Garbage, LoTok::LoggedOut, LoTok::Valid];
+
+fn session_works(node: &Node, tok: &str) -> Result<bool, String> {
+    let mut ok = false;
+    for c in [SessCarrier::Cookie, SessCarrier::Header] {
+        let r = console_req(node, "GET", "/rnacos/api/console/v2/user/info", Some((tok, c)), None)?;
+        if !is_no_login(&r) && r.status == 200 {
+            ok = true;
+        }
+    }
+    Ok(ok)
+}
+
+/// one logout request with the given cookie / Token header states. Oracle: when the logout is answered with success,
+/// at least one of the sessions that were valid when it was sent is refused afterwards ("a successful logout ends a
+/// session"); sessions that were not part of the request stay valid.
+pub fn run_logout_case(node: &Node, case: &LogoutCase) -> CaseReport {
+    let labels = vec!["logout_tier".to_string(), format!("logout_cookie_{:?}_header_{:?}", case.cookie, case.header).to_lowercase()];
+    let infra = |e: String| CaseReport { labels: vec!["logout_tier".into(), "discarded".into()], nontrivial: false, verdict: Verdict::Discard(e) };
+    let mut valid_before: Vec<String> = vec![];
+    let mut mk = |k: LoTok| -> Result<Option<String>, String> {
+        Ok(match k {
+            LoTok::Absent => None,
+            LoTok::Empty => Some(String::new()),
+            LoTok::Garbage => Some("0123456789abcdef0123456789abcdef".into()),
+            LoTok::LoggedOut => {
+                let t = node.console_login(ADMIN_USER, admin_pass())?;
+                let r = console_req(node, "POST", "/rnacos/api/console/v2/login/logout", Some((&t, SessCarrier::Cookie)), None)?;
+                if r.status != 200 {
+                    return Err(format!("preparing a logged-out session: logout answered {}", r.short()));
+                }
+                Some(t)
+            }
+            LoTok::Valid => {
+                let t = node.console_login(ADMIN_USER, admin_pass())?;
+                valid_before.push(t.clone());
+                Some(t)
+            }
+        })
+    };
+    let cookie = match mk(case.cookie) {
+        Ok(c) => c,
+        Err(e) => return infra(e),
+    };
+    let header = match mk(case.header) {
+        Ok(c) => c,
+        Err(e) => return infra(e),
+    };
+    // a bystander session that is not part of the request
+    let bystander = match node.console_login(ADMIN_USER, admin_pass()) {
+        Ok(t) => t,
+        Err(e) => return infra(e),
+    };
+    for t in &valid_before {
+        match session_works(node, t) {
+            Ok(true) => {}
+            Ok(false) => return CaseReport::violation(labels, true, "a session that was just issued is refused".to_string()),
+            Err(e) => return infra(e),
+        }
+    }
+    let mut headers = vec![];
+    if let Some(c) = &cookie {
+        headers.push(("Cookie".to_string(), format!("token={}", c)));
+    }
+    if let Some(h) = &header {
+        headers.push(("Token".to_string(), h.clone()));
+    }
+    let target = if case.v2 { "/rnacos/api/console/v2/login/logout" } else { "/rnacos/api/console/login/logout" };
+    let r = match node.con(&Req { method: "POST".into(), target: target.into(), headers, body: vec![] }) {
+        Ok(r) => r,
+        Err(e) => return infra(e),
+    };
+    let success = r.status == 200 && !is_no_login(&r) && r.body_str().contains("\"success\":true");
+    if valid_before.is_empty() && success {
+        return CaseReport::violation(labels, true, format!("logout without any valid session was served: POST {} [cookie {:?}, Token header {:?}] -> {}", target, case.cookie, case.header, r.short()));
+    }
+    if success {
+        let mut still = 0;
+        for t in &valid_before {
+            match session_works(node, t) {
+                Ok(true) => still += 1,
+                Ok(false) => {}
+                Err(e) => return infra(e),
+            }
+        }
+        if still == valid_before.len() {
+            return CaseReport::violation(
+                labels,
+                true,
+                format!(
+                    "logout was answered with success but ended no session: POST {} [cookie {:?}, Token header {:?}] -> {}; afterwards every session that was valid when the request was sent ({}) is still accepted on /v2/user/info",
+                    target,
+                    case.cookie,
+                    case.header,
+                    r.short(),
+                    valid_before.len()
+                ),
+            );
+        }
+    }
+    match session_works(node, &bystander) {
+        Ok(true) => {}
+        Ok(false) => return CaseReport::violation(labels, true, format!("a logout [cookie {:?}, header {:?}] ended a session that was not part of the request", case.cookie, case.header)),
+        Err(e) => return infra(e),
+    }
+    CaseReport::pass(labels, success)
+}
+
+/// the complete product v1/v2 x cookie state x header state
+pub fn logout_sweep(node: &Node, stats: &Stats) -> Option<Failure<LogoutCase>> {
+    for v2 in [false, true] {
+        for cookie in LO_ALL {
+            for header in LO_ALL {
+                let case = LogoutCase { v2, cookie, header };
+                let mut rep = run_logout_case(node, &case);
+                if matches!(rep.verdict, Verdict::Discard(_)) {
+                    rep = run_logout_case(node, &case);
+                }
+                stats.record(&case, &rep);
+                if let Verdict::Violation(m) = rep.verdict {
+                    return Some(Failure { case, message: m });
+                }
+            }
+        }
+    }
+    None
 }
 
 pub fn main(ctx: &Ctx) -> i32 {
@@ -770,6 +918,22 @@ fn main_inner(ctx: &Ctx) -> i32 {
     };
     stats.set_extra("console_route_templates", serde_json::json!(templates.len()));
     stats.set_extra("console_paths", serde_json::json!(paths.len()));
+    if let Some(p) = &ctx.replay {
+        if let Ok(lc) = read_replay::<LogoutCase>(p) {
+            let cfg = NodeCfg { api_login_ttl_s: 7200, console_login_ttl_s: 7200, cluster_token: "rnv-c17".into(), leaderless: false, snapshot_log_size: None };
+            return match Node::start(&work_dir_path(ctx), "node-lo", &cfg) {
+                Ok(node) => finish_replay(ctx, run_logout_case(&node, &lc), p),
+                Err(e) => {
+                    eprintln!("C17 infrastructure problem: {}", e);
+                    2
+                }
+            };
+        }
+        if let Ok(rc) = read_replay::<crate::c1617::restart::RestartCase>(p) {
+            let rep = crate::c1617::restart::run_case(&rc, crate::c1617::restart::Kind::Console, &work_dir_path(ctx));
+            return finish_replay(ctx, rep, p);
+        }
+    }
     // a pure replay needs no server
     if let Some(p) = &ctx.replay {
         let case: Case = match read_replay(p) {
@@ -836,7 +1000,32 @@ fn main_inner(ctx: &Ctx) -> i32 {
         stats.set_extra("wall_random_s", serde_json::json!(t2.elapsed().as_secs_f64()));
     }
     let _ = env.counter.load(Ordering::Relaxed);
-    let code = finish(ctx, &stats, fin(), failure);
+    if failure.is_some() {
+        let code = finish(ctx, &stats, fin(), failure);
+        drop(env);
+        return code;
+    }
+    // logged-out sessions (complete product of cookie / Token header states on both logout routes)
+    if let Some(f) = logout_sweep(&env.a, &stats) {
+        let code = finish(ctx, &stats, fin(), Some(f));
+        drop(env);
+        return code;
+    }
     drop(env);
-    code
+    // expired console sessions across restarts of the node (restart.rs): saved schedules first, then generated ones
+    let t3 = Instant::now();
+    let work = work_dir_path(ctx);
+    for p in saved_replays("C17") {
+        if let Ok(rc) = read_replay::<crate::c1617::restart::RestartCase>(&p) {
+            let rep = crate::c1617::restart::run_case(&rc, crate::c1617::restart::Kind::Console, &work);
+            stats.label("replayed");
+            stats.record(&rc, &rep);
+            if let Verdict::Violation(m) = &rep.verdict {
+                return finish(ctx, &stats, fin(), Some(Failure { case: rc, message: format!("regression replay {}: {}", p.display(), m) }));
+            }
+        }
+    }
+    let failure_rt = crate::c1617::restart::run_tier(ctx, &stats, crate::c1617::restart::Kind::Console, &work, ctx.tier.pick(4, 48));
+    stats.set_extra("wall_restart_tier_s", serde_json::json!(t3.elapsed().as_secs_f64()));
+    finish(ctx, &stats, fin(), failure_rt)
 }
